@@ -54,6 +54,19 @@ def gmatch : Glob → List Char → Bool
     | [] => false
   | .star :: ps, cs => (tails cs).any (gmatch ps)
 
+/-- split a character list at every `sep` (what `str.split(sep)` does; kernel-reducible). -/
+def splitL (sep : Char) : List Char → List (List Char)
+  | [] => [[]]
+  | c :: cs =>
+    if c == sep then [] :: splitL sep cs
+    else match splitL sep cs with
+      | [] => [[c]]
+      | h :: t => (c :: h) :: t
+
+def strSplit (sep : Char) (s : String) : List String := (splitL sep s.toList).map String.ofList
+def strStartsWith (s p : String) : Bool := p.toList.isPrefixOf s.toList
+def strEndsWith (s p : String) : Bool := p.toList.isSuffixOf s.toList
+
 def parseGlob (s : String) : Glob :=
   s.toList.map (fun c => if c == '*' then GAtom.star else if c == '?' then GAtom.one else GAtom.lit c)
 
@@ -63,8 +76,8 @@ structure Pat where
 
 /-- `PurePath(pattern)`: empty and `.` components vanish; a leading `/` makes the pattern absolute. -/
 def parsePat (s : String) : Pat :=
-  { abs := s.startsWith "/",
-    comps := ((s.splitOn "/").filter (fun c => c != "" && c != ".")).map parseGlob }
+  { abs := strStartsWith s "/",
+    comps := ((strSplit '/' s).filter (fun c => c != "" && c != ".")).map parseGlob }
 
 def compsMatch : List Glob → List String → Bool
   | [], [] => true
@@ -293,15 +306,7 @@ def nsFinal : Namespace → Namespace
 
 /-! ## 4. `import_path` -/
 
-def dotSplitL : List Char → List (List Char)
-  | [] => [[]]
-  | c :: cs =>
-    if c == '.' then [] :: dotSplitL cs
-    else match dotSplitL cs with
-      | [] => [[c]]
-      | h :: t => (c :: h) :: t
-
-def dotSplit (s : String) : List String := (dotSplitL s.toList).map String.ofList
+def dotSplit (s : String) : List String := strSplit '.' s
 
 def dotToUnderscore (s : String) : String :=
   String.ofList (s.toList.map (fun c => if c == '.' then '_' else c))
@@ -389,7 +394,7 @@ def insertMissing (w : World) (key : ModKey) : World :=
                  w.modules }
 
 /-- `spec_from_file_location` finds a loader only for source files (`.pyc` / extension modules are not generated). -/
-def isPySource (path : Path) : Bool := (path.getLast?.getD "").endsWith ".py"
+def isPySource (path : Path) : Bool := strEndsWith (path.getLast?.getD "") ".py"
 
 /-- second half of `import_path`: the name derived from the path relative to the root. -/
 def importByPath (env : Env) (w : World) (path : Path) : World × Option Module :=
@@ -428,7 +433,7 @@ def isMarked (w : World) (o : ObjId) : Bool :=
   | some f => f.marked
   | none => false
 
-def isTaskName (n : String) : Bool := n.startsWith Generated.taskPrefix
+def isTaskName (n : String) : Bool := strStartsWith n Generated.taskPrefix
 
 /-- collect.py's hook: module members that are unmarked functions with the `task_` prefix. -/
 def prefixMember (w : World) (path : Path) (e : String × Obj) : Option Report :=
@@ -494,18 +499,23 @@ def dedup : List String → List String
   | [] => []
   | x :: xs => x :: (dedup xs).filter (fun y => y != x)
 
+/-- what one name of `all_names` contributes: generated ids for a repeated name, the name itself otherwise. -/
+def contribution (w : World) (parsed : List (String × ObjId)) (name : String) : Option Dict :=
+  if decide (2 ≤ (parsed.filter (fun e => e.1 == name)).length) then generateIds w (parsed.filter (fun e => e.1 == name))
+  else match parsed.filter (fun e => e.1 == name) with
+    | (_, o) :: _ => some [(name, o)]
+    | [] => some []
+
+/-- `collected_tasks.update(...)` / `collected_tasks[name] = ...`. -/
+def dictUpdate (d : Dict) (c : Dict) : Dict := c.foldl (fun d e => dictSet d e.1 e.2) d
+
 def parseStep (w : World) (parsed : List (String × ObjId)) (acc : Option Dict) (name : String) : Option Dict :=
   match acc with
   | none => none
   | some d =>
-    let sel := parsed.filter (fun e => e.1 == name)
-    if decide (2 ≤ sel.length) then
-      match generateIds w sel with
-      | none => none
-      | some ids => some (ids.foldl (fun d e => dictSet d e.1 e.2) d)
-    else match sel with
-      | (_, o) :: _ => some (dictSet d name o)
-      | [] => some d
+    match contribution w parsed name with
+    | none => none
+    | some c => some (dictUpdate d c)
 
 /-- `parse_collected_tasks_with_task_marker`; `enum` is the iteration order of the set `all_names`. -/
 def parseCollected (enum : List String → List String) (w : World) (tasks : List ObjId) : Option Dict :=
